@@ -48,6 +48,9 @@ import (
 // parent records the read that was in flight as got.kind = "panic" and restarts the child after it.
 // ---------------------------------------------------------------------------------------------
 
+// stallAfter: a single in-memory read that does not return for this long counts as a hang.
+const stallAfter = 90 * time.Second
+
 type lossyCache struct {
 	mu   sync.Mutex
 	m    map[string][]byte
@@ -574,7 +577,35 @@ func TestC14(t *testing.T) {
 		var stderr bytes.Buffer
 		cmd.Stdout = &stderr
 		cmd.Stderr = &stderr
-		err := cmd.Run()
+		// a read that makes no progress for stallAfter is a hang of the code under test: the child is
+		// killed and the read in flight is logged as got.kind = "hang"
+		hung := false
+		err := cmd.Start()
+		if err == nil {
+			done := make(chan error, 1)
+			go func() { done <- cmd.Wait() }()
+			lastSize, lastChange := int64(-1), time.Now()
+		wait:
+			for {
+				select {
+				case err = <-done:
+					break wait
+				case <-time.After(500 * time.Millisecond):
+					var sz int64
+					if fi, serr := os.Stat(outp); serr == nil {
+						sz = fi.Size()
+					}
+					if sz != lastSize {
+						lastSize, lastChange = sz, time.Now()
+					} else if time.Since(lastChange) > stallAfter {
+						hung = true
+						cmd.Process.Kill()
+						err = <-done
+						break wait
+					}
+				}
+			}
+		}
 		// copy what the child recorded; remember the last read that was started but not completed
 		var lastP []byte
 		if f, ferr := os.Open(outp); ferr == nil {
@@ -617,6 +648,11 @@ func TestC14(t *testing.T) {
 		delete(pend, "_idx")
 		if g, ok := pend["got"].(map[string]any); ok {
 			g["msg"] = "process died: " + firstLines(stderr.String(), 3)
+			if hung {
+				g["kind"] = "hang"
+				g["msg"] = fmt.Sprintf("no progress for %v inside this read; process killed", stallAfter)
+				crashes += 8 // hangs are expensive: stop after three
+			}
 		} else {
 			t.Fatalf("pending line without got: %v", pend)
 		}
